@@ -10,6 +10,9 @@ package main
 //  (c) every diagnostic line with a line number names (after un-escaping the
 //      path) an existing regular file, and 1 <= N <= M <= its number of
 //      physical lines; with :EOF the file exists;
+//  (c') (beyond the property statement, cheap) with -s: the ">" source lines
+//      printed directly above such a diagnostic are, un-escaped, consecutive
+//      physical lines of that file that include N..M;
 //  (d) the extracted accounting predicate holds: summary counts = numbers of
 //      ERROR/WARN/NOTE lines, "Looks fine." iff no errors and warnings, exactly
 //      one final line (none with -q/-F), nothing but hints after it, exit
@@ -239,7 +242,12 @@ func (ck *c06Checker) check(c c06Case, out RunResult, accAnswer string) {
 				if stream.name == "stdout" {
 					// classify the line as far as its safe prefix allows
 					if d, ok := ParseDiag(raw); ok {
-						where = "diag/" + c07Norm(d.Msg)
+						where = "diag-msg/" + c07Norm(d.Msg)
+						for k := 0; k < len(d.Path); k++ {
+							if !c06SafeByte(d.Path[k]) {
+								where = "diag-path"
+							}
+						}
 					} else if c07IsSourceLine(raw) {
 						where = "source"
 					} else if strings.HasPrefix(raw, "\t") {
@@ -260,9 +268,47 @@ func (ck *c06Checker) check(c c06Case, out RunResult, accAnswer string) {
 	}
 	// (b) + (c)
 	fatal := strings.Contains(out.Stderr, "FATAL: ")
-	for _, raw := range stdoutLines {
+	showsSource, autofixMode := false, false
+	for _, a := range c.Args {
+		showsSource = showsSource || a == "-s"
+		autofixMode = autofixMode || a == "-f" || a == "-F"
+	}
+	for li, raw := range stdoutLines {
 		l := ck.cache[g+"|"+raw]
 		res.Count("line."+l.kind, 1)
+		if l.kind == "diag" && showsSource && !autofixMode && l.hasPath && (l.lnKind == "num" || l.lnKind == "range") {
+			// (c') the ">" source lines printed directly above a diagnostic are the physical lines N..M of that file
+			first := li
+			for first > 0 && strings.HasPrefix(stdoutLines[first-1], ">\t") {
+				first--
+			}
+			if first < li {
+				full := filepath.Join(c.Root, c.Cwd, c06Unescape(l.path))
+				if data, err := os.ReadFile(full); err == nil {
+					phys := strings.SplitAfter(string(data), "\n")
+					// the block shows the whole logical line, physical lines S..S+k-1; a diagnostic of an
+					// autofix reports only the physical lines it touches, so N..M must lie inside the block
+					k := li - first
+					ok := false
+					for S := l.m - k + 1; S <= l.n && !ok; S++ {
+						if S < 1 || S+k-1 > len(phys) {
+							continue
+						}
+						ok = true
+						for j := 0; ok && j < k; j++ {
+							ok = c06Unescape(strings.TrimPrefix(stdoutLines[first+j], ">\t")) == strings.TrimSuffix(phys[S-1+j], "\n")
+						}
+					}
+					res.Count("source-block.checked", 1)
+					if k > 1 {
+						res.Count("source-block.multi-line", 1)
+					}
+					if !ok {
+						ck.violation(c, out, "C06/source-lines-mismatch/"+c07Norm(l.msg), fmt.Sprintf("the %d source line(s) shown above %q are not physical lines of %q that include %d..%d", k, trunc(raw, 160), c06Unescape(l.path), l.n, l.m))
+					}
+				}
+			}
+		}
 		if l.kind == "unknown" {
 			ck.violation(c, out, "C06/unrecognised-line/"+c07Norm(trunc(raw, 40)), fmt.Sprintf("stdout line %q is not in the grammar", trunc(raw, 200)))
 			continue
@@ -467,7 +513,7 @@ func c06SpecSelfTest(ctx *Ctx, res *Result) {
 
 func runC06run(ctx *Ctx) *Result {
 	res := &Result{}
-	ntrees, perTree := 70, 8
+	ntrees, perTree := 150, 8
 	if ctx.Tier == "thorough" {
 		ntrees, perTree = 1200, 10
 	}
@@ -507,9 +553,10 @@ func runC06run(ctx *Ctx) *Result {
 	// coverage floors
 	floors := map[string]int{"diag.with-escaped-byte": 200, "diag.lineno.range-valid": 30, "diag.lineno-with-escaped-path": 30, "line.source": 100, "line.indented": 100,
 		"line.summary": 50, "line.looksfine": 1, "line.hint": 50, "diag.AUTOFIX": 20, "diag.NOTE": 20, "run.warnings-only-Werror": 1, "option.-q": 10, "option.-F": 10, "option.--only": 10}
-	for k, min := range floors {
-		if d(k) < min {
-			res.Broken = fmt.Sprintf("coverage floor missed: %s = %d < %d", k, d(k), min)
+	for _, k := range sortedKeys(floors) {
+		// a missed floor makes a PASS meaningless; when violations were found they are the result
+		if d(k) < floors[k] && len(res.Violations) == 0 {
+			res.Broken = fmt.Sprintf("coverage floor missed: %s = %d < %d", k, d(k), floors[k])
 		}
 	}
 	res.Assumptions = []string{"file names contain no '<' (the un-escaping of <U+XXXX>/<0xNN> is then unambiguous), no ':' and no newline",
